@@ -13,7 +13,7 @@ namespace TrieHeap
 
 /-- concatenated SCALE encodings of the children's Merkle values -/
 def kidsBytes (ks : Nib → Option Nat) (ms : Nib → Bytes) : Bytes :=
-  (List.finRange 16).flatMap (fun i => if (ks i).isSome then scaleBytes (ms i) else [])
+  (List.finRange 16).flatMap (fun i => if (ks i).isSome then TrieCodec.scaleEncBytes (ms i) else [])
 
 theorem kidsBytes_congr (ks : Nib → Option Nat) (ms ms' : Nib → Bytes)
     (h : ∀ i, (ks i).isSome → ms i = ms' i) : kidsBytes ks ms = kidsBytes ks ms' := by
@@ -280,12 +280,12 @@ theorem encodeKids_loop (H : Bytes → Bytes) (rec : Heap → Nat → Heap × Op
       (∀ Q : Nat → Prop, Closed Q hp → TrP H Q hp hp1) →
       let r := l.foldl (fun (acc : Heap × Option Bytes) i =>
         match ks i, acc.2 with
-        | some c, some bs => let r := rec acc.1 c; (r.1, r.2.map (fun m => bs ++ scaleBytes m))
+        | some c, some bs => let r := rec acc.1 c; (r.1, r.2.map (fun m => bs ++ TrieCodec.scaleEncBytes m))
         | _, _ => acc) (hp1, acc)
       MvOnly hp r.1 ∧ (∀ Q : Nat → Prop, Closed Q hp → TrP H Q hp r.1) ∧
       (∀ out, r.2 = some out → ∃ pre, acc = some pre ∧
         (∀ i, i ∈ l → ∀ c, ks i = some c → Val H hp c (msOf H hp ks i)) ∧
-        out = pre ++ l.flatMap (fun i => if (ks i).isSome then scaleBytes (msOf H hp ks i) else [])) := by
+        out = pre ++ l.flatMap (fun i => if (ks i).isSome then TrieCodec.scaleEncBytes (msOf H hp ks i) else [])) := by
   intro l
   induction l with
   | nil =>
@@ -326,7 +326,7 @@ theorem encodeKids_loop (H : Bytes → Bytes) (rec : Heap → Nat → Heap × Op
         have hm2 : MvOnly hp (rec hp1 c).1 := hm.trans ok.mvOnly
         have ht2 : ∀ Q : Nat → Prop, Closed Q hp → TrP H Q hp (rec hp1 c).1 :=
           fun Q hq => (ht Q hq).trans (ok.trp Q (hm.closed hq)) hq
-        have := ih (rec hp1 c).1 ((rec hp1 c).2.map (fun m => pre ++ scaleBytes m)) hm2 ht2
+        have := ih (rec hp1 c).1 ((rec hp1 c).2.map (fun m => pre ++ TrieCodec.scaleEncBytes m)) hm2 ht2
         obtain ⟨h1, h2, h3⟩ := this
         refine ⟨h1, h2, ?_⟩
         intro out ho
